@@ -354,11 +354,24 @@ class NamespaceClass(Namespace[symtable.Class]):
                 return self._load_global(name)
             return Name(id=name, ctx=Load())
         else:
-            # a class member
-            return Subscript(
-                value=self.class_member_dict_expr,
-                slice=Constant(value=name),
-                ctx=Load(),
+            # a class member; while the body has not bound it yet, the name
+            # means the global / builtin of that spelling (LOAD_NAME)
+            if self._is_local_of_enclosing_function(name):
+                unbound: expr = self._load_global(name)
+            else:
+                unbound = Name(id=name, ctx=Load())
+            return IfExp(
+                test=Compare(
+                    left=Constant(value=name),
+                    ops=[In()],
+                    comparators=[self.class_member_dict_expr],
+                ),
+                body=Subscript(
+                    value=self.class_member_dict_expr,
+                    slice=Constant(value=name),
+                    ctx=Load(),
+                ),
+                orelse=unbound,
             )
 
 
